@@ -77,6 +77,41 @@ def find_node(g, name):
     return None
 
 
+def chain_program_part(ctx):
+    """The chain of theorems C14_run_pauses / _resumes / _answered / C14_model_run (InterruptRun.chain: A(x) -> a ; I(a) -> d ;
+    B(a, d) -> b) on the implementation: the pausing run, the resumed run and the run whose handler answers, for several x,
+    responses (falsy ones included) and budgets; status, function-node call order and which of a, d, b are returned are compared
+    with the model program's own runs (InterruptRunModel.chain_obs)."""
+    from harness.common import c_list, c_pos, c_nat, c_Z, c_bool
+    NAME = {"A": 10, "I": 15, "B": 11}
+
+    def graph(handler_value):
+        return {"nodes": [
+            {"name": "A", "kind": "func", "inputs": ["x"], "outputs": ["a"], "emit": [], "wait_for": [], "defaults": {}, "fn": ["sym", "A"]},
+            {"name": "I", "kind": "interrupt", "inputs": ["a"], "outputs": ["d"], "emit": [], "wait_for": [], "defaults": {}, "fn": ["const", handler_value]},
+            {"name": "B", "kind": "func", "inputs": ["a", "d"], "outputs": ["b"], "emit": [], "wait_for": [], "defaults": {}, "fn": ["sym", "B"]}],
+            "bound": {}, "entrypoints": None, "selected": None}
+    items = []
+    for resp in (7, 0, 3):
+        for fuel in (2, 3, 4, 20):
+            x = ctx.rng.randint(0, 9)
+            plans = [(graph(None), {"x": x}, "(FConst VNone)", f"[(1%positive, VInt {c_Z(x)})]"),
+                     (graph(None), {"x": x, "d": resp}, "(FConst VNone)", f"[(1%positive, VInt {c_Z(x)}); (32%positive, VInt {c_Z(resp)})]"),
+                     (graph(resp), {"x": x}, f"(FConst (VInt {c_Z(resp)}))", f"[(1%positive, VInt {c_Z(x)})]")]
+            for (g, inputs, handler_t, pv_t) in plans:
+                rc = {"runner": "async", "inputs": inputs, "error_handling": "continue", "max_iterations": fuel}
+                obs = pdl.run_real(g, rc)
+                st = {"completed": 0, "failed": 1, "paused": 2}.get(obs["status"])
+                if st is None:
+                    ctx.violation("oracle", f"the interrupt chain ended {obs['status']}: {obs.get('error_repr')}", case={"graph": g, "run": rc})
+                    continue
+                calls = [c_pos(NAME[nm]) for nm, _ in obs["log"] if nm != "I"]
+                vals = [c_bool(k in obs["values"]) for k in ("a", "d", "b")]
+                real = f"({c_nat(st)}, {c_list(calls)}, {c_list(vals)})"
+                items.append(({"graph": g, "run": rc}, 131, "chain_obs_eqb", f"chain_obs {handler_t} {c_nat(fuel)} {pv_t}", real))
+    return engine.run_model_programs(ctx, "C14", ["Samples", "GateRun", "InterruptRun", "InterruptRunModel"], items)
+
+
 def run(ctx):
     rng = ctx.rng
     cases, meta = [], []
@@ -187,6 +222,7 @@ def run(ctx):
                       f"Some (mk_pause {path} {c_pos(N(p['out']))} {pdl.c_val(N, p['value'])})")
         return msgs
 
+    n_model_programs = chain_program_part(ctx)
     obs_all, res = engine.run_cases(ctx, "C14", cases, extra=extra)
     # history-level oracle: one interrupt at a time, in dependency order; final result == handlers answering themselves
     for h in hist_groups:
@@ -209,7 +245,7 @@ def run(ctx):
             ctx.violation("oracle", f"resumed run ended {last['status']} {last['values']}; with the handlers returning the same responses the run ends {ref['status']} {ref['values']}",
                           case={"graph": h["g"], "inputs": h["inputs"], "answers": h["answers"]})
     ctx.coverage.update(
-        evaluations=len(cases), coq_checks=res["n"], distinct_nontrivial=len(nontrivial),
+        evaluations=len(cases) + n_model_programs, coq_checks=res["n"], distinct_nontrivial=len(nontrivial),
         rule="random DAGs with 1-3 single-output nodes turned into interrupts (handler pauses; 20% answer themselves), 25% with the "
              "interrupt inside a nested graph; each driven through its complete pause/resume history on AsyncRunner under adversarial "
              "completion orders; non-trivial = a run that paused",
